@@ -1,7 +1,9 @@
 """C04 - multipart bodies are parsed byte-exactly for every content and chunking.
 
-Model: lean/CpModel/Multipart.lean (on the cursor that C05 proves SizedReader refines), theorems:
-lean/CpProofs/C04.lean (+ C04Lemmas.lean), driver: lean/Drv/C04.lean.
+Model: lean/CpModel/Multipart.lean (parser over the cursor that C05 proves SizedReader refines) and
+lean/CpModel/MultipartR.lean (the same parser over the concrete reader model; this is what the driver
+runs, with the case's buffer size / fragmentation / declared length), theorems: lean/CpProofs/C04.lean
+(+ C04Lemmas, C04Names, C04Sim), driver: lean/Drv/C04.lean.
 
 Real code: a POST through `cherrypy.Application` called in-process; `wsgi.input` is the instrumented
 fragmenting stream of the C05 harness (it also records the furthest offset read / asked for),
@@ -43,17 +45,18 @@ TECHNIQUE = ('Lean 4 proof: loop invariant of Part.read_lines_to_boundary (defer
              'on the LF-split of the content, composed over headers / parts / first-marker search; on top of the '
              'C05 reader refinement; model tied to the real parser by a differential run through in-process WSGI')
 LEVEL_TEXT = ('Proved in Lean for every valid boundary, every preamble without a marker line, every list of >= 1 parts '
-              'with well-formed header lines, every memory threshold, with or without CRLF/epilogue after the close '
-              'delimiter: if no part content has a delimiter-like line (a line starting with -- that strip()s to the '
-              'boundary or end marker) the parser returns every part in order with the header list read_headers '
-              'builds and byte-identical content (spilled <=> longer than maxrambytes) and stops right behind the close '
-              'delimiter; the RFC-strength statement is proved false (F7 witness). The reader under the parser is the '
-              'cursor that C05 proves SizedReader refines for every fragmentation and buffer size (bridge theorem '
-              'C04_readline_is_cursor); stream offset <= Content-Length from C05. Also proved: values under one name are the '
-              'parts with that name in wire order; a body without marker line has no parts; name / filename / content type '
-              'are extracted as declared for form-data; name="n"[; filename="f"] with n, f free of quote, backslash, '
-              'semicolon, comma. Partial: other header shapes (escapes, several elements, continuation lines) and the '
-              'composition of the reader bridge with the parser loops are covered by the correspondence run only; so are bodies without a declared length (F23).')
+              'with well-formed header lines, every memory threshold, close delimiter bare or followed by CRLF + any '
+              'epilogue, any bytes of a following request behind Content-Length, EVERY read-buffer size >= 1 and EVERY '
+              'socket fragmentation (C04_framing_concrete, over the SizedReader model of C05): if no part content has a '
+              'delimiter-like line (a line starting with -- that strip()s to the boundary or end marker) the parser '
+              'returns every part in order with the header list read_headers builds and byte-identical content '
+              '(spilled <=> longer than maxrambytes), stops right behind the close delimiter and takes at most '
+              'Content-Length bytes off the connection. The RFC-strength statement is proved false (F7 witness). Also '
+              'proved: values under one name are the parts with that name in wire order; a body without marker line has '
+              'no parts; name / filename / content type are extracted as declared for form-data; name="n"[; '
+              'filename="f"] with n, f free of quote, backslash, semicolon, comma. Partial: other header shapes '
+              '(escapes, several elements, continuation lines), field-value charset decoding and bodies without a '
+              'declared length (F23, repaired) are covered by the correspondence run only.')
 LEVEL_NOTE = ('Trusted: Lean kernel, the hand models lean/CpModel/Multipart.lean + Reader.lean as validated by the '
               'differential run (POST through in-process WSGI under fragmentation / buffer sizes / thresholds), '
               'tempfile, the harness. httputil.HeaderMap / header_elements / parse_header are modelled without proof.')
